@@ -392,6 +392,17 @@ func dynColsString(cols []DynSlice, k Kind) string {
 func (w *World) WriteStriped(dst int, sk Kind, cols [][]uint64) {
 	d := w.views[dst]
 	src := mkCols(sk, cols)
+	// rows that are prefixes of an earlier row are passed as slices of that row's backing array (a caller's
+	// {mono, mono[:3]}): what a row holds, not where it lives, decides what is written
+	for j := 1; j < len(cols); j++ {
+		for i := 0; i < j; i++ {
+			if cols[j] != nil && len(cols[i]) > 0 && len(cols[j]) <= len(cols[i]) && eqU(cols[j], cols[i][:len(cols[j])]) {
+				src[j] = src[i].Prefix(len(cols[j]))
+				w.st.branch("striped-aliased-rows")
+				break
+			}
+		}
+	}
 	var r int
 	p := try(func() { r = writeStripedCall(sk, d.Kind())(src, d) })
 	if p == "" {
